@@ -6,3 +6,5 @@ import Jb.Model.Duration
 import Jb.Model.Speech
 import Jb.Model.Weights
 import Jb.Props.C02
+import Jb.Props.C08
+import Jb.Props.C09
